@@ -56,6 +56,7 @@ var (
 	foreign4 = tcpip.Address("\x0a\x00\x00\x4d")
 	foreign6 = tcpip.Address("\xfd\x00\x00\x00\x00\x00\x00\x00\x00\x00\x00\x00\x00\x00\x00\x4d")
 	bcast4   = tcpip.Address("\xff\xff\xff\xff")
+	second4  = tcpip.Address("\x0a\x00\x00\x09") // a second address of the stack, added and removed during the run
 )
 
 type echoWorld struct {
@@ -63,6 +64,7 @@ type echoWorld struct {
 	reqs    []*echoReq
 	nburst  int
 	pending map[int][]*echoReq // burst id -> own-address v4 requests of that burst
+	second  bool               // second4 is currently assigned
 }
 
 func echoPayload(seed uint64, ident, seq uint16, n int) []byte {
@@ -105,11 +107,16 @@ func (w *echoWorld) request(flags int, ident, seq uint16, n int, wait bool, burs
 			r.dst = A4
 		case 1:
 			r.dst = foreign4
+		case 3:
+			r.dst = second4
 		default:
 			r.dst = bcast4
 		}
 	}
-	r.own = r.dst == A4 || r.dst == A6
+	r.own = r.dst == A4 || r.dst == A6 || (r.dst == second4 && w.second)
+	if r.dst == second4 {
+		w.Probes["requests_to_the_second_address"]++
+	}
 	w.reqs = append(w.reqs, r)
 	msg := codec.EncodeEcho([]byte(r.src), []byte(r.dst), v6, false, ident, seq, r.data)
 	if v6 {
@@ -160,7 +167,9 @@ func (w *echoWorld) collect() {
 		for _, r := range w.reqs {
 			if r.v6 == d.IP.V6 && r.ident == d.ICMP.Ident && r.seq == d.ICMP.Seq && bytes.Equal(r.data, d.ICMP.Data) &&
 				sameAddr(d.IP.Src, string(r.dst)) && sameAddr(d.IP.Dst, string(r.src)) {
-				if match == nil || r.answered < match.answered {
+				// identical requests may have been sent while the address was and was not the
+				// stack's: a reply is attributed to one it may answer, if there is any
+				if match == nil || (r.own && !match.own) || (r.own == match.own && r.answered < match.answered) {
 					match = r
 				}
 			}
@@ -211,6 +220,19 @@ func (w *echoWorld) apply(s Step) {
 			w.InjectIP(false, peer4, A4, codec.ProtoICMP, codec.EncodeICMPv4(13, 0, 0, make([]byte, 12)), 0)
 		}
 		w.collect()
+	case "addr":
+		// assign or remove the stack's second address: what it owns changes during the run
+		if w.second {
+			if err := w.S.S.RemoveAddress(1, second4); err == nil {
+				w.second = false
+				w.Probes["address_removed"]++
+			}
+		} else if err := w.S.S.AddAddress(1, ipv4.ProtocolNumber, second4); err == nil {
+			w.second = true
+			w.Probes["address_added"]++
+		}
+		w.Settle()
+		w.collect()
 	case "adv":
 		w.Advance(time.Duration(s.D))
 		w.collect()
@@ -243,7 +265,7 @@ func (w *echoWorld) next() Step {
 	if r.Chance(0.4) {
 		flags |= 1
 	}
-	flags |= r.Pick(6, 2, 1) << 1
+	flags |= []int{0, 1, 2, 3}[r.Pick(6, 2, 1, 3)] << 1
 	if r.Chance(0.15) {
 		flags |= 8
 	}
@@ -258,7 +280,9 @@ func (w *echoWorld) next() Step {
 	if r.Chance(0.5) {
 		id, seq = r.Intn(65536), r.Intn(65536)
 	}
-	switch r.Pick(10, 4, 2, 2) {
+	switch r.Pick(10, 4, 2, 2, 2) {
+	case 4:
+		return Step{Op: "addr"}
 	case 0:
 		return Step{Op: "echo", A: flags, B: id, C: seq, D: int64(n)}
 	case 1:
@@ -281,6 +305,7 @@ func (scEcho) Run(t *testing.T, prop string, seed uint64, cfgRaw json.RawMessage
 		defer w.Close()
 		w.TraceOn = trace
 		w.YieldP = cfg.YieldP
+		w.S.Link.Addrs = append(w.S.Link.Addrs, second4)
 		if steps == nil {
 			for i := 0; i < cfg.MaxSteps && w.Viol == nil; i++ {
 				s := w.next()
